@@ -72,6 +72,16 @@ Proof.
   apply (wfb2_sound Z Z.eqb (fun a b H => proj1 (Z.eqb_eq a b) H)). vm_compute. reflexivity.
 Qed.
 
+Example ext_ith_value_tuple :
+  exists vs, lookup Z ["g"; "pos"] (inst_from_vector Z zbin ext [10%Z; 20%Z]) = Some (ITup vs) /\
+             List.length vs = 2 /\ nth 0 vs IMissing = IV (nth 0 [10%Z; 20%Z] 0%Z).
+Proof.
+  destruct ext_tuple_hyp as [W [Ep Hn]].
+  apply (ith_value_tuple Z zbin ext [10%Z; 20%Z] 0 [] 0%Z ["g"; "pos"] "pos_0" _ 0 (NPrior 0) W eq_refl (le_S _ _ (le_n 1)) Ep Hn).
+  - simpl. apply perm_swap.
+  - right. left. reflexivity.
+Qed.
+
 (* weaker hypothesis: p * p (both operands one object, one attribute name) satisfies wfb2 but not wfb *)
 Definition exsq : node Z :=
   NColl [("g", NModel "G2" ["a"; "b"] [("a", NBin OMul "p" "p" (NPrior 0) (NPrior 0)); ("b", NPrior 1)])].
